@@ -5,16 +5,21 @@
 //!       spectrum = level id(hex) file_id inj(f32) [n (0 | 1 ref(hex))…] [n (mass(f32) intensity(f32))…]
 //!       row      = key(hex) file_id inj(f32) [n f32…]
 //!   selpeak <p|c|d> lo hi center (0 | 1 offset) [n (mass intensity)…]  ->  0 | 1 mass intensity
+//!   tmtproc <plex> level rawLevel deisotope maxPeaks (0 | 1 charge) [n (mz(f32) intensity(f32))…]  ->  [n row…]
+//!       the runner's pipeline on one RAW spectrum: min_deisotope_mz as in runner.rs (source-text tie),
+//!       SpectrumProcessor::new(maxPeaks, deisotope, min_deisotope_mz.unwrap_or(0.0)).process(raw), tmt::quantify
 //!   tmtguard <plex> level  ->  (0 | 1 min_deisotope_mz) [n upper-edge(f32)…]
 //!   tmtconsts  ->  for t6,t10,t11,t16,t18: [n f32…]; PROTON; and, read from the text of
 //!                  sage-cli/src/runner.rs: ppmLo ppmHi (quantify call) c1 c2 (min_deisotope_mz factor) level form(last|max)
 use super::Info;
 use crate::proto::{Case, Out, Rng, Tier, Toks};
-use sage_core::mass::{Tolerance, PROTON};
-use sage_core::spectrum::{select_most_intense_peak, Peak, Precursor, ProcessedSpectrum};
+use sage_core::mass::{Tolerance, NEUTRON, PROTON};
+use sage_core::spectrum::{
+    select_most_intense_peak, Peak, Precursor, ProcessedSpectrum, RawSpectrum, Representation, SpectrumProcessor,
+};
 use sage_core::tmt::{quantify, Isobaric};
 
-pub const OPS: &[&str] = &["tmt", "selpeak", "tmtconsts", "tmtguard"];
+pub const OPS: &[&str] = &["tmt", "selpeak", "tmtconsts", "tmtguard", "tmtproc"];
 pub const INFO: Info = Info {
     rule: "tmt: plex in {6,10,11,16,18,user-defined (0-6 masses, sorted or not, some 6 mDa apart, some with \
            overlapping windows)} x quant level (mostly 2/3, also 0/1/4) x 0-6 spectra of mixed levels (ids, file ids, \
@@ -27,7 +32,14 @@ pub const INFO: Info = Info {
            intensity orders, odd intensities (negative, -0, NaN, inf: spec na). non-trivial = some spectrum at the quant level has a channel with a peak \
            in its window AND a peak outside every window. selpeak: sorted peak lists over few distinct masses / \
            intensities (ties, zeros, negatives) x Ppm/Pct/Da windows whose edges coincide with peak masses, with \
-           and without offset; exhaustive small scope in the thorough tier. tmtconsts: one case (tables, plex \
+           and without offset; exhaustive small scope in the thorough tier. tmtproc (raw spectrum -> runner's min_deisotope_mz -> \
+           SpectrumProcessor::process -> quantify): every built-in plex x {descending, ascending, equal reporter \
+           intensities} x precursor charge {none, 2} x {own channels, all 18 positions}, plus random cases: built-in and \
+           user plexes (neutron ladders, shuffled), reporter peaks within +-15 ppm, second peaks in a window, peaks \
+           24-44 ppm outside, neighbours one neutron/z (z 1-2) above/below reporters at 0.25-4x the intensity, peaks in \
+           the 1.2 Th right above the heaviest channel, fragment isotope clusters (z 1-3) above the region; no peak \
+           within 17-23 ppm of a channel (spec exact); quant/raw level (2,2) mostly, (3,3), mismatches; deisotope on 5/6; \
+           max_peaks >= number of peaks, except a 10% small-max_peaks stream (spec na). tmtconsts: one case (tables, plex \
            slices, runner.rs constants). tmtguard: every built-in plex x level 0-4, plus user-defined plexes (1-8 \
            masses): ascending, shuffled except for the last element, and fully shuffled (the heaviest mass anywhere).",
     serial: false,
@@ -165,6 +177,10 @@ fn exec_tmt(t: &mut Toks) -> Option<String> {
         })
         .collect();
     let rows = quantify(&spectra, &plex.real(), Tolerance::Ppm(lo, hi), level as u8);
+    Some(render_rows(&rows))
+}
+
+fn render_rows(rows: &[sage_core::tmt::TmtQuant]) -> String {
     let mut lines: Vec<String> = rows
         .iter()
         .map(|r| {
@@ -183,7 +199,7 @@ fn exec_tmt(t: &mut Toks) -> Option<String> {
     for l in &lines {
         o.raw(l);
     }
-    Some(o.finish())
+    o.finish()
 }
 
 fn exec_selpeak(t: &mut Toks) -> Option<String> {
@@ -335,8 +351,50 @@ fn exec_guard(t: &mut Toks) -> Option<String> {
     Some(o.finish())
 }
 
+/// `tmtproc`: raw spectrum -> (runner's min_deisotope_mz) -> SpectrumProcessor::process -> tmt::quantify
+fn exec_proc(t: &mut Toks) -> Option<String> {
+    let plex = Plex::read(t)?;
+    let level = t.usize()?;
+    let raw_level = t.usize()?;
+    if level > 255 || raw_level > 255 {
+        return None;
+    }
+    let deiso = t.bool()?;
+    let max_peaks = t.usize()?;
+    let charge = t.opt(|t| t.usize())?.map(|z| z as u8);
+    let peaks = t.list(|t| Some((t.f32()?, t.f32()?)))?;
+    if !t.done() {
+        return None;
+    }
+    let (ppm, guard) = runner_consts()?;
+    let (lo, hi) = (*ppm)?;
+    let (c1, c2, glevel, is_max) = (*guard)?;
+    let iso = plex.real();
+    // runner.rs read_processed_spectra, in the form found in the source
+    let min_deisotope_mz = if level == glevel {
+        let masses = iso.reporter_masses();
+        let heaviest = if is_max { masses.iter().copied().reduce(f32::max) } else { masses.last().copied() };
+        heaviest.map(|x| x * (c1 + c2))
+    } else {
+        None
+    };
+    let sp = SpectrumProcessor::new(max_peaks, deiso, min_deisotope_mz.unwrap_or(0.0));
+    let mut raw = RawSpectrum::default_with_file_id(0);
+    raw.ms_level = raw_level as u8;
+    raw.id = "s".into();
+    raw.representation = Representation::Centroid;
+    raw.precursors = vec![Precursor { mz: 600.0, charge, spectrum_ref: Some("p".into()), ..Default::default() }];
+    raw.mz = peaks.iter().map(|p| p.0).collect();
+    raw.intensity = peaks.iter().map(|p| p.1).collect();
+    let processed = sp.process(raw);
+    // runner.rs complete_features
+    let rows = quantify(&[processed], &iso, Tolerance::Ppm(lo, hi), level as u8);
+    Some(render_rows(&rows))
+}
+
 pub fn exec(op: &str, t: &mut Toks) -> Option<String> {
     match op {
+        "tmtproc" => exec_proc(t),
         "tmt" => exec_tmt(t),
         "selpeak" => exec_selpeak(t),
         "tmtconsts" => exec_consts(t),
@@ -567,8 +625,215 @@ fn sel_request(kind: &str, lo: f32, hi: f32, center: f32, offset: Option<f32>, p
     o.finish()
 }
 
+// ------------------------------------------------------------------------------------------ tmtproc gen
+
+fn proc_request(plex: &Plex, level: usize, raw_level: usize, deiso: bool, max_peaks: usize, charge: Option<u8>, peaks: &[(f32, f32)]) -> String {
+    let mut o = Out::new();
+    o.raw("tmtproc");
+    plex.write(&mut o);
+    o.n(level).n(raw_level).b(deiso).n(max_peaks);
+    match charge {
+        None => o.n(0),
+        Some(z) => o.n(1).n(z),
+    };
+    o.n(peaks.len());
+    for &(m, i) in peaks {
+        o.f32(m).f32(i);
+    }
+    o.finish()
+}
+
+/// keep a raw peak only if, for every channel, it is clearly inside (<= 17 ppm) or clearly outside (>= 23 ppm)
+/// the +-20 ppm window, so that the m/z-space definition decides it exactly (no guard-band peaks in this op)
+fn clear_of_edges(mz: f32, labels: &[f32]) -> bool {
+    mz.is_finite()
+        && mz > 1.5
+        && labels.iter().all(|&l| {
+            let off = ((mz as f64) / (l as f64) - 1.0).abs() * 1.0e6;
+            off <= 17.0 || off >= 23.0
+        })
+}
+
+/// sort by m/z, strictly ascending (no duplicate m/z: `sort_unstable_by` key ties cannot arise)
+fn finish_raw(mut peaks: Vec<(f32, f32)>, labels: &[f32]) -> Vec<(f32, f32)> {
+    peaks.retain(|p| clear_of_edges(p.0, labels));
+    peaks.sort_by(|a, b| a.0.total_cmp(&b.0));
+    peaks.dedup_by(|a, b| a.0 == b.0);
+    peaks
+}
+
+/// intensities of the reporter peaks by channel index
+fn pattern_intensity(pattern: usize, i: usize, n: usize, rng: &mut Rng) -> f32 {
+    match pattern {
+        0 => (100 * (n - i)) as f32,          // descending: each channel less intense than its -1 neutron partner
+        1 => (100 * (i + 1)) as f32,          // ascending
+        2 => 500.0,                           // all equal
+        _ => *rng.pick(&[50.0f32, 100.0, 100.0, 200.0, 400.0, 1234.5]),
+    }
+}
+
+fn rand_user_proc(rng: &mut Rng) -> Plex {
+    let mut v: Vec<f32> = Vec::new();
+    match rng.below(3) {
+        0 => {
+            // a neutron ladder (every mass is the +1 isotope position of another one)
+            let base = 100.0 + rng.unit() * 300.0;
+            let z = 1 + rng.below(2);
+            for k in 0..(2 + rng.below(4)) {
+                v.push((base + k as f64 * (NEUTRON as f64) / z as f64) as f32);
+            }
+        }
+        1 => {
+            for _ in 0..(1 + rng.below(5)) {
+                v.push((100.0 + rng.unit() * 60.0) as f32);
+            }
+        }
+        _ => {
+            let b = builtin(&Plex::T18);
+            for _ in 0..(1 + rng.below(6)) {
+                v.push(*rng.pick(&b));
+            }
+            v.sort_by(|a, b| a.total_cmp(b));
+            v.dedup();
+        }
+    }
+    if rng.chance(2, 3) {
+        rng.shuffle(&mut v);
+    }
+    Plex::User(v)
+}
+
+fn gen_proc(rng: &mut Rng, quick: bool, emit: &mut dyn FnMut(Case)) {
+    let all18 = builtin(&Plex::T18);
+    // ---- directed: every built-in plex x {descending, ascending, equal} x precursor charge {none, 2} x
+    //      {only the plex's channels, all 18 positions}: one peak exactly on every channel
+    for plex in [Plex::T6, Plex::T10, Plex::T11, Plex::T16, Plex::T18] {
+        let labels = builtin(&plex);
+        for pattern in 0..3 {
+            for charge in [None, Some(2u8)] {
+                for all_positions in [false, true] {
+                    let pos: &[f32] = if all_positions { &all18 } else { &labels };
+                    let n = pos.len();
+                    let peaks: Vec<(f32, f32)> =
+                        pos.iter().enumerate().map(|(i, &l)| (l, pattern_intensity(pattern, i, n, rng))).collect();
+                    let peaks = finish_raw(peaks, &labels);
+                    emit(Case::new(proc_request(&plex, 2, 2, true, 150, charge, &peaks))
+                        .tag("proc:directed-one-peak-per-channel")
+                        .tag(match pattern {
+                            0 => "proc:descending",
+                            1 => "proc:ascending",
+                            _ => "proc:equal",
+                        }));
+                }
+            }
+        }
+    }
+    // ---- random
+    let n_cases = if quick { 700 } else { 25000 };
+    for _ in 0..n_cases {
+        let plex = if rng.chance(1, 4) {
+            rand_user_proc(rng)
+        } else {
+            match rng.below(6) {
+                0 => Plex::T6,
+                1 => Plex::T10,
+                2 => Plex::T11,
+                3 => Plex::T16,
+                _ => Plex::T18,
+            }
+        };
+        let user = matches!(plex, Plex::User(_));
+        let labels = builtin(&plex);
+        let pattern = rng.below(4);
+        let mut aims: Vec<f32> = labels.clone();
+        if !user && rng.chance(1, 2) {
+            aims = all18.clone();
+        }
+        let n = aims.len();
+        let mut peaks: Vec<(f32, f32)> = Vec::new();
+        let mut reporters: Vec<(f32, f32)> = Vec::new();
+        for (i, &l) in aims.iter().enumerate() {
+            if rng.chance(1, 8) {
+                continue;
+            }
+            let off = (rng.unit() * 30.0 - 15.0) * 1.0e-6;
+            let mz = (l as f64 * (1.0 + off)) as f32;
+            let it = pattern_intensity(pattern, i, n, rng);
+            reporters.push((mz, it));
+            peaks.push((mz, it));
+            if rng.chance(1, 6) {
+                // a second peak in the same window
+                let off2 = (rng.unit() * 32.0 - 16.0) * 1.0e-6;
+                peaks.push(((l as f64 * (1.0 + off2)) as f32, it * *rng.pick(&[0.5f32, 1.0, 2.0])));
+            }
+            if rng.chance(1, 6) {
+                // just outside the window
+                let off3 = (24.0 + rng.unit() * 20.0) * 1.0e-6 * if rng.chance(1, 2) { 1.0 } else { -1.0 };
+                peaks.push(((l as f64 * (1.0 + off3)) as f32, it * *rng.pick(&[0.5f32, 1.0, 3.0])));
+            }
+        }
+        // neighbours one neutron/z above / below reporter peaks, smaller / equal / larger
+        for &(mz, it) in &reporters {
+            if rng.chance(1, 3) {
+                let z = 1 + rng.below(2);
+                let sgn = if rng.chance(1, 2) { 1.0 } else { -1.0 };
+                let jitter = (rng.unit() * 8.0 - 4.0) * 1.0e-6;
+                let m2 = ((mz as f64 + sgn * (NEUTRON as f64) / z as f64) * (1.0 + jitter)) as f32;
+                peaks.push((m2, it * *rng.pick(&[0.25f32, 0.5, 1.0, 2.0, 4.0])));
+            }
+        }
+        // the stretch right above the heaviest channel (first m/z that are NOT exempt)
+        if let Some(mx) = labels.iter().copied().reduce(f32::max) {
+            for _ in 0..rng.below(4) {
+                peaks.push(((mx as f64 * (1.0 + 23.0e-6) + rng.unit() * 1.2) as f32, rand_intensity(rng)));
+            }
+        }
+        // peptide-fragment isotope clusters above the reporter region
+        for _ in 0..rng.below(5) {
+            let base = 180.0 + rng.unit() * 1200.0;
+            let z = 1 + rng.below(3);
+            let mut it = 100.0 + rng.unit() * 5000.0;
+            for k in 0..(2 + rng.below(3)) {
+                peaks.push(((base + k as f64 * (NEUTRON as f64) / z as f64) as f32, it as f32));
+                it *= 0.3 + rng.unit() * 0.6;
+            }
+        }
+        let peaks = finish_raw(peaks, &labels);
+        let np = peaks.len();
+        let (level, raw_level) = match rng.below(16) {
+            0 => (3, 2),
+            1 => (2, 3),
+            2 => (1, 2),
+            3 | 4 => (3, 3),
+            _ => (2, 2),
+        };
+        let deiso = rng.chance(5, 6);
+        let charge = match rng.below(5) {
+            0 => None,
+            z => Some(z as u8),
+        };
+        let small = np >= 2 && rng.chance(1, 10);
+        let max_peaks = if small { 1 + rng.below(np - 1) } else { np + rng.below(60) };
+        let in_windows = peaks.iter().filter(|p| labels.iter().any(|&l| (((p.0 as f64) / (l as f64)) - 1.0).abs() <= 20.0e-6)).count();
+        emit(Case::new(proc_request(&plex, level, raw_level, deiso, max_peaks, charge, &peaks))
+            .tag(if user { "proc:user" } else { "proc:builtin" })
+            .tag(match pattern {
+                0 => "proc:descending",
+                1 => "proc:ascending",
+                2 => "proc:equal",
+                _ => "proc:random-intensities",
+            })
+            .tag_if(deiso, "proc:deisotope-on")
+            .tag_if(small, "proc:small-max-peaks")
+            .tag_if(level != raw_level, "proc:level-mismatch")
+            .tag_if(level == 3 && raw_level == 3, "proc:ms3")
+            .nontrivial(level == 2 && raw_level == 2 && deiso && !small && in_windows >= 2 && in_windows < np));
+    }
+}
+
 pub fn gen(rng: &mut Rng, tier: Tier, emit: &mut dyn FnMut(Case)) {
     let quick = tier == Tier::Quick;
+    gen_proc(rng, quick, emit);
     emit(Case::new("tmtconsts".to_string()).tag("consts"));
 
     // ---------------------------------------------------------------- tmtguard
